@@ -84,31 +84,50 @@ type Note struct { // has-many held as POINTERS
 	UserID uint
 	Text   string
 }
+
+// caller-keyed (natural key) models: the key is set by the program, nothing is generated, so gorm
+// INSERTs them with Exec (no RETURNING) whatever the dialect can do
+type Tag struct { // many-to-many side
+	Code  string `gorm:"primaryKey"`
+	Label string
+}
+type Country struct { // belongs-to side
+	Code string `gorm:"primaryKey"`
+	Name string
+}
+type Alias struct { // has-many side
+	Name   string `gorm:"primaryKey"`
+	UserID uint
+}
 type User struct {
-	ID        uint `gorm:"primaryKey"`
-	Name      string
-	Age       int
-	CreatedAt time.Time
-	UpdatedAt time.Time
-	BuddyID   *uint
-	Buddy     *User // belongs-to the same table (cycles are possible)
-	CompanyID *uint
-	Company   *Company // belongs-to by pointer
-	HomeID    *uint
-	Home      Company // belongs-to by value
-	Profile   *Profile
-	Badge     *Badge `gorm:"polymorphic:Holder"`
-	Pets      []Pet
-	Notes     []*Note
-	Languages []Language `gorm:"many2many:user_languages"`
-	Toys      []Toy      `gorm:"polymorphic:Owner"`
+	ID          uint `gorm:"primaryKey"`
+	Name        string
+	Age         int
+	CreatedAt   time.Time
+	UpdatedAt   time.Time
+	BuddyID     *uint
+	Buddy       *User // belongs-to the same table (cycles are possible)
+	CompanyID   *uint
+	Company     *Company // belongs-to by pointer
+	HomeID      *uint
+	Home        Company // belongs-to by value
+	Profile     *Profile
+	Badge       *Badge `gorm:"polymorphic:Holder"`
+	Pets        []Pet
+	Notes       []*Note
+	Languages   []Language `gorm:"many2many:user_languages"`
+	Toys        []Toy      `gorm:"polymorphic:Owner"`
+	CountryCode *string
+	Country     *Country `gorm:"foreignKey:CountryCode;references:Code"`
+	Aliases     []Alias
+	Tags        []Tag `gorm:"many2many:user_tags"`
 }
 
 var pinnedNow = time.Date(2024, 5, 6, 7, 8, 9, 123456789, time.UTC)
 
 func nowFunc() time.Time { return pinnedNow }
 
-var tables = []string{"companies", "users", "profiles", "pets", "collars", "toys", "languages", "user_languages", "badges", "notes"}
+var tables = []string{"companies", "users", "profiles", "pets", "collars", "toys", "languages", "user_languages", "badges", "notes", "tags", "countries", "aliases", "user_tags"}
 
 // hooks: every invocation is an event; the hfault-th invocation returns errHook
 var (
@@ -199,6 +218,9 @@ type UserSpec struct {
 	Profile *ToySpec  `json:"profile,omitempty"` // id+bio
 	Badge   *ToySpec  `json:"badge,omitempty"`   // id+label (polymorphic has-one)
 	Notes   []ToySpec `json:"notes,omitempty"`   // id+text (has-many of pointers)
+	Country *ToySpec  `json:"country,omitempty"` // name = code (caller-assigned key), belongs-to
+	Aliases []ToySpec `json:"aliases,omitempty"` // name = key, has-many
+	Tags    []ToySpec `json:"tags,omitempty"`    // name = code, many-to-many
 	Buddy   string    `json:"buddy,omitempty"`   // "self": the record is its own buddy (a cycle) | "new": a fresh user
 	Pets    []PetSpec `json:"pets,omitempty"`
 	Langs   []ToySpec `json:"langs,omitempty"` // id+code
@@ -265,6 +287,15 @@ func buildUser(s UserSpec) User {
 	for _, n := range s.Notes {
 		u.Notes = append(u.Notes, &Note{ID: n.ID, Text: n.Name})
 	}
+	if s.Country != nil {
+		u.Country = &Country{Code: s.Country.Name, Name: "country " + s.Country.Name}
+	}
+	for _, a := range s.Aliases {
+		u.Aliases = append(u.Aliases, Alias{Name: a.Name})
+	}
+	for _, t := range s.Tags {
+		u.Tags = append(u.Tags, Tag{Code: t.Name, Label: "tag " + t.Name})
+	}
 	for _, p := range s.Pets {
 		pet := Pet{ID: p.ID, Name: p.Name, Kind: p.Kind}
 		if p.Collar != nil {
@@ -320,7 +351,7 @@ func getEnv() *env {
 	dsn := "file:" + path + "?_busy_timeout=2000&_synchronous=0&_journal_mode=MEMORY"
 	sqlDB, rec := recdrv.Open(dsn)
 	db := openHandle(sqlDB)
-	lib.Must(db.AutoMigrate(&Company{}, &User{}, &Profile{}, &Pet{}, &Collar{}, &Toy{}, &Language{}, &Badge{}, &Note{}))
+	lib.Must(db.AutoMigrate(&Company{}, &User{}, &Profile{}, &Pet{}, &Collar{}, &Toy{}, &Language{}, &Badge{}, &Note{}, &Tag{}, &Country{}, &Alias{}))
 	fresh, err := sql.Open("c05fresh", dsn)
 	lib.Must(err)
 	plain, err := gorm.Open(sqlite.Dialector{Conn: fresh}, &gorm.Config{Logger: logger.Discard, NowFunc: nowFunc})
@@ -498,6 +529,15 @@ func doOp(db *gorm.DB, op Op) error {
 		return db.Create(&u).Error
 	case "create_value": // the record passed BY VALUE: hooks cannot be called on it
 		return db.Create(buildUser(op.Users[0])).Error
+	case "create_tag": // a caller-keyed record, alone or several
+		ts := make([]Tag, len(op.Users))
+		for i, u := range op.Users {
+			ts[i] = Tag{Code: u.Name, Label: "tag " + u.Name}
+		}
+		if len(ts) == 1 {
+			return db.Create(&ts[0]).Error
+		}
+		return db.Create(&ts).Error
 	case "create_note": // a model without any hook method
 		return db.Create(&Note{UserID: op.Target, Text: op.Users[0].Name}).Error
 	case "create_note_value": // ... passed BY VALUE: nothing may be written (ErrInvalidValue)
@@ -780,6 +820,15 @@ func (g *gen) user(existing bool) UserSpec {
 	if r.Chance(1, 4) {
 		u.Badge = &ToySpec{Name: g.name("b")}
 	}
+	if r.Chance(1, 4) {
+		u.Country = &ToySpec{Name: g.name("cc")}
+	}
+	for i := r.Intn(3); i > 0 && r.Chance(1, 2); i-- {
+		u.Aliases = append(u.Aliases, ToySpec{Name: g.name("al")})
+	}
+	for i := r.Intn(3); i > 0 && r.Chance(1, 2); i-- {
+		u.Tags = append(u.Tags, ToySpec{Name: g.name("tg")})
+	}
 	for i := r.Intn(3); i > 0 && r.Chance(1, 3); i-- {
 		u.Notes = append(u.Notes, ToySpec{Name: g.name("n")})
 	}
@@ -866,6 +915,12 @@ func (g *gen) input() Input {
 		if r.Chance(1, 12) {
 			op.Kind = "create_value"
 		} else if r.Chance(1, 12) {
+			op.Kind = "create_tag"
+			op.Users = []UserSpec{{Name: g.name("tg")}}
+			if r.Bool() {
+				op.Users = append(op.Users, UserSpec{Name: g.name("tg")})
+			}
+		} else if r.Chance(1, 12) {
 			op.Kind, op.Target = lib.Pick(r, []string{"create_note", "create_note_value"}), nu
 			op.Users = []UserSpec{{Name: g.name("n")}}
 		} else if nu > 0 && r.Chance(1, 12) {
@@ -896,6 +951,7 @@ func (g *gen) input() Input {
 			if r.Chance(2, 3) {         // keep out of the known finding: no associations
 				u.Company, u.Profile, u.Pets, u.Langs, u.Toys = nil, nil, nil, nil, nil
 				u.Home, u.Badge, u.Notes = nil, nil, nil
+				u.Country, u.Aliases, u.Tags = nil, nil, nil
 			}
 		}
 		op.Users = []UserSpec{u}
@@ -1026,7 +1082,7 @@ func samePrefix(free, got []Ev) bool {
 func withID(u UserSpec, id uint) UserSpec { u.ID = id; return u }
 
 func hasAssoc(u UserSpec) bool {
-	return u.Company != nil || u.Home != nil || u.Profile != nil || u.Badge != nil || len(u.Notes) > 0 || len(u.Pets) > 0 || len(u.Langs) > 0 || len(u.Toys) > 0
+	return u.Company != nil || u.Country != nil || len(u.Aliases) > 0 || len(u.Tags) > 0 || u.Home != nil || u.Profile != nil || u.Badge != nil || len(u.Notes) > 0 || len(u.Pets) > 0 || len(u.Langs) > 0 || len(u.Toys) > 0
 }
 
 const sigSaveTwoTx = "save-preset-key-missing-row-with-associations"
@@ -1272,6 +1328,10 @@ func main() {
 			{Kind: "save", Users: []UserSpec{withID(full, 1)}, Sess: []string{"skiphooks"}}, {Kind: "updates", Target: 1, Users: []UserSpec{full}, Sess: []string{"skiphooks", "newdb"}},
 			{Kind: "delete", Users: []UserSpec{{ID: 1}}, Select: []string{"*"}, Sess: []string{"skiphooks"}}, {Kind: "create", Users: []UserSpec{full}, Sess: []string{"initialized", "queryfields"}},
 			{Kind: "create_value", Users: []UserSpec{small}, Sess: []string{"skiphooks"}}, {Kind: "create_value", Users: []UserSpec{plain}, Sess: []string{"skiphooks"}},
+			{Kind: "create_tag", Users: []UserSpec{{Name: "t1"}}}, {Kind: "create_tag", Users: []UserSpec{{Name: "t1"}, {Name: "t2"}}, NoRet: true},
+			{Kind: "create", Users: []UserSpec{{Name: "k", Country: &ToySpec{Name: "xx"}, Aliases: []ToySpec{{Name: "a1"}, {Name: "a2"}}, Tags: []ToySpec{{Name: "g1"}, {Name: "g2"}}}}},
+			{Kind: "create", Users: []UserSpec{{Name: "k", Country: &ToySpec{Name: "xx"}, Aliases: []ToySpec{{Name: "a1"}}, Tags: []ToySpec{{Name: "g1"}}}}, NoRet: true},
+			{Kind: "save", Users: []UserSpec{withID(UserSpec{Name: "k", Country: &ToySpec{Name: "xx"}, Aliases: []ToySpec{{Name: "a1"}}, Tags: []ToySpec{{Name: "g1"}}}, 1)}},
 			{Kind: "create_note", Target: 1, Users: []UserSpec{plain}}, {Kind: "create_note_value", Target: 1, Users: []UserSpec{plain}},
 			{Kind: "create_batches", Users: []UserSpec{small, small, small}, Batch: 2, Sess: []string{"skiphooks"}}, {Kind: "create", Users: []UserSpec{full}, Sess: []string{"logger", "nowfunc", "allowglobal", "unscopedprop"}},
 		}
@@ -1285,7 +1345,7 @@ func main() {
 			}
 			addOp("menu", in, -1, -1)
 		}
-		nops -= 58
+		nops -= 62
 		if nops < 20 {
 			nops = 20
 		}
